@@ -48,7 +48,9 @@ mod record;
 #[cfg(libp2p_verif)]
 pub mod verif_hooks {
     //! Verification hooks (compiled only with `--cfg libp2p_verif`).
-    pub use crate::{kbucket::verif_hooks::*, protocol::verif_hooks::*};
+    pub use crate::{
+        behaviour::verif_hooks::*, kbucket::verif_hooks::*, protocol::verif_hooks::*,
+    };
 }
 
 mod proto {
